@@ -303,6 +303,15 @@ def gen_wellformed(runner, tier, seed):
     s.send(fr)
     s = runner.session(cfg_plain(), "wf answers near and beyond the 16-bit length fields")
     s.send(giants())
+    # checksums whose 32-bit sum carries twice when folded: long runs of 0xff make that likely
+    s = runner.session(cfg_plain(), "wf checksum folding with large sums")
+    fr = []
+    for seq in range(64 if tier == "quick" else 1024):
+        fr.append(p6.echo(0xffff, seq * 1021 & 0xffff, b"\xff" * 8000))
+        fr.append(p4.echo(0xffff, seq * 1021 & 0xffff, b"\xff" * 8000))
+    for k in range(32 if tier == "quick" else 512):
+        fr.append(p6.udp(k * 2039 & 0xffff, 80, http_request("GET", b"/" + b"\xff" * 900)))
+    s.send(fr)
     # requests whose own checksums are wrong (the responder does not validate them; what it emits must still be right)
     s = runner.session(cfg_plain(), "wf requests with wrong checksums")
     fr = []
@@ -475,6 +484,10 @@ def gen_arp_nd_echo(runner, tier, seed):
                 fr.append(eth(SMAC, CMAC, 0x86DD, ipv6(C6, S6, 58, icmp6(C6, S6, 128, 0, struct.pack(">HH", n, 7) + d))) + pad)
                 fr.append(eth(SMAC, CMAC, 0x0800, ipv4(C4, S4, 1, icmp_echo(n, 8, d), ihl=6, options=b"\x01\x01\x01\x00")) + pad)
             fr.append(eth(b"\xff" * 6, CMAC, 0x0806, arp(1, CMAC, C4, "00:00:00:00:00:00", S4, trailer=b"\0" * 18)))
+        # ARP probes (sender 0.0.0.0, RFC 5227) and gratuitous requests (sender = target)
+        for spa in ("0.0.0.0", S4, "255.255.255.255"):
+            for m in (b"\xff" * 6, mac(SMAC)):
+                fr.append(eth(m, CMAC, 0x0806, arp(1, CMAC, spa, "00:00:00:00:00:00", S4)))
         # duplicate address detection: the solicitation comes from the unspecified address
         for dst in (solicited_node(S6), S6):
             fr.append(eth(mcast_mac6(S6) if dst != S6 else SMAC, CMAC, 0x86DD, ipv6("::", dst, 58, nd_ns("::", dst, S6), hlim=255)))
